@@ -9,7 +9,7 @@ from . import common
 
 
 PROPS = {
-    'C01': 'harness.c01', 'C02': 'harness.c02', 'C15': 'harness.c15', 'C14': 'harness.c14', 'C06': 'harness.c06', 'C17': 'harness.c17', 'C03': 'harness.c03', 'C04': 'harness.c04', 'C12': 'harness.c12', 'C08': 'harness.c08', 'C09': 'harness.c09', 'C05': 'harness.c05', 'C10': 'harness.c10', 'C11': 'harness.c11', 'C07': 'harness.c07', 'C18': 'harness.c18', 'C16': 'harness.c16',
+    'C01': 'harness.c01', 'C02': 'harness.c02', 'C15': 'harness.c15', 'C14': 'harness.c14', 'C06': 'harness.c06', 'C17': 'harness.c17', 'C03': 'harness.c03', 'C04': 'harness.c04', 'C12': 'harness.c12', 'C08': 'harness.c08', 'C09': 'harness.c09', 'C05': 'harness.c05', 'C10': 'harness.c10', 'C11': 'harness.c11', 'C07': 'harness.c07', 'C18': 'harness.c18', 'C16': 'harness.c16', 'C13': 'harness.c13',
 }
 
 
